@@ -295,7 +295,7 @@ func TestVerifC03(t *testing.T) {
 				continue
 			}
 			honest, fs := forgeries(seed, gr.g, gr.gsk, et, signer, other, (thorough || flipTypes[et]) && gr.name == "multimember")
-			meta, ev, err := openGroupEnvelope(gr.g, honest)
+			meta, ev, err := vOpenGroupEnvelope(gr.g, honest)
 			ok := err == nil && meta.EventType == et && proto.Equal(ev, honestPayload(seed, et, signer))
 			rep.Eval(fmt.Sprintf("%s/honest/opens=%v", gr.name, ok))
 			if !ok {
@@ -306,7 +306,7 @@ func TestVerifC03(t *testing.T) {
 				var pan interface{}
 				func() {
 					defer func() { pan = recover() }()
-					_, _, ferr = openGroupEnvelope(gr.g, f.env)
+					_, _, ferr = vOpenGroupEnvelope(gr.g, f.env)
 				}()
 				rep.Eval(fmt.Sprintf("%s/%s/rejected=%v", gr.name, f.name, ferr != nil))
 				if pan != nil {
@@ -385,6 +385,17 @@ func TestVerifC03(t *testing.T) {
 			return
 		}
 		collect()
+		// the history a listing hands out (GroupMetadataList, the catch-up pass of an activation): a refused entry is
+		// not part of it either, now or once the index has seen the entry
+		listed := func() int {
+			ch, err := ms.ListEvents(w.ctx, nil, nil, false)
+			vmust(err)
+			n := 0
+			for range ch {
+				n++
+			}
+			return n
+		}
 		for _, et := range storeTypes {
 			groupSigned := et == protocoltypes.EventType_EventTypeMultiMemberGroupInitialMemberAnnounced
 			if groupSigned && !gr.honestGroupSK {
@@ -396,9 +407,13 @@ func TestVerifC03(t *testing.T) {
 				if !f.mustFail {
 					continue
 				}
+				nListed := listed()
 				appendRaw(f.env)
 				me, re := collect()
 				after := metaState(ms)
+				if n := listed(); n != nListed+1 { // + the sentinel
+					rep.Violation("C03/forged-event-listed/"+f.name, fmt.Sprintf("%s group: forged %s ('%s') appended by a member is handed out by the listing of the log's events (%d events listed before, %d after it and one honest event)", gr.name, et, f.name, nListed, n), c03Case{gr.name, et.String(), f.name})
+				}
 				rep.Eval(fmt.Sprintf("store/%s/%s/emitted=%d/state-unchanged=%v", gr.name, f.name, len(me)+len(re), after == before))
 				rep.AddTransitions(1)
 				if len(me)+len(re) > 0 {
